@@ -239,13 +239,24 @@ def run(tier, replay):
             except ValueError:
                 pass
         recs.append(dict({"id": rid, "k": kind, "t": res["t"], "v": v}, **f))
+    # TLC validates the records in portions (one run over several hundred thousand records does not end in an hour)
     path = os.path.join(d, "expr.ndjson")
-    with open(path, "w") as f:
-        for r in recs:
-            f.write(dumps(r) + "\n")
-    res2 = run_tlc("Trace_Expr.tla", "Trace_Expr.cfg", os.path.join(d, "tlc_tr"), env={"TRACE": path}, timeout=3000)
-    if res2.timed_out or not res2.ok:
-        raise ToolError("TLC failed validating parse trees / literals:\n%s" % res2.violation)
+
+    class _Acc:
+        printed, distinct, generated, cmd = [], 0, 0, ""
+    res2 = _Acc()
+    PORTION = 50000
+    for start in range(0, len(recs), PORTION):
+        with open(path, "w") as f:
+            for r in recs[start:start + PORTION]:
+                f.write(dumps(r) + "\n")
+        part = run_tlc("Trace_Expr.tla", "Trace_Expr.cfg", os.path.join(d, "tlc_tr"), env={"TRACE": path}, timeout=3000)
+        if part.timed_out or not part.ok:
+            raise ToolError("TLC failed validating parse trees / literals (records %d..):\n%s" % (start, part.violation))
+        res2.printed = res2.printed + part.printed
+        res2.distinct += part.distinct
+        res2.generated += part.generated
+        res2.cmd = part.cmd
     byid = {r["id"]: r for r in recs}
     for ln in res2.printed:
         if ln.startswith("MISMATCH "):
